@@ -196,6 +196,12 @@ static std::string run_cell (const Cmd &c, const HandleCfg &h, const Cell &cell,
 		f = open_handle (h, mf) ;
 		if (!f) return "" ;	// this configuration cannot be opened (e.g. RDWR unsupported): nothing to exercise
 	}
+	if (h.hk == H_NULL && h.meta)
+	{	// NULL handle right after a failed open: the process-wide parse log and error are populated (a few hundred bytes of log)
+		static const char hdr [] = "RIFF\x88\x01\x00\x00WAVEfmt \x10\x00\x00\x00\x77\x77\x02\x00\x44\xac\x00\x00\x10\xb1\x02\x00\x04\x00\x10\x00LIST\x20\x00\x00\x00INFOINAM\x08\x00\x00\x00title  \x00" ;
+		MemFile bad ; bad.data.assign (400, 0x41) ; memcpy (bad.data.data (), hdr, sizeof (hdr) - 1) ;
+		SF_INFO bi ; memset (&bi, 0, sizeof (bi)) ; SNDFILE *g = open_mem (bad, SFM_READ, &bi) ; if (g) sf_close (g) ;
+	}
 	int n = cell.datasize ;
 	uint8_t *blk = nullptr ;
 	if (cell.data_kind) { blk = (uint8_t *) malloc (n ? n : 1) ; fill_block (blk, n, c, cell.data_kind, (uint64_t) c.id * 131 + n) ; if (n == 0) { /* zero-size request: 1-byte block, logical size 0 */ } }
@@ -302,6 +308,7 @@ int main (int argc, char **argv)
 	std::vector<Group> groups ;
 	for (int ci = 0 ; ci < NCMD ; ci++)
 	{	groups.push_back ({ ci, { H_NULL, 0, false } }) ;
+		groups.push_back ({ ci, { H_NULL, 0, true } }) ;	// NULL handle after a failed open (global log and error populated)
 		for (int hk = H_READ ; hk <= H_RDWR ; hk++) for (int fi = 0 ; fi < NFMT ; fi++) for (int m = 0 ; m < 2 ; m++)
 		{	groups.push_back ({ ci, { hk, fi, m != 0 } }) ;
 			if (cmds [ci].kind == K_QUERY && m == 1) for (int v = 1 ; v <= 3 ; v++) { Group g { ci, { hk, fi, true } } ; g.h.variant = v ; groups.push_back (g) ; }
